@@ -29,4 +29,4 @@ Definition c14x_pure_ic (sys : nat) (G : graph) (nodelist : list node) (idx : no
   (V0, (perm_state idx nl2 sys V0,
         node_V0 sys G' (map phi nl2) (x0_sets (map phi nl2) (map phi I0) (map phi R0)) (y0_set (map phi nl2) (map phi I0)))).
 
-Extraction "../ocaml/gen/c14x_model.ml" glue_types14 c14x_eval c14x_ic c14x_pure_ic perm_state veqb Qred.
+Extraction "../ocaml/gen/c14x_model.ml" glue_types14 c14x_eval c14x_ic c14x_pure_ic iso_okb perm_state veqb Qred.
